@@ -295,7 +295,17 @@ func StructFieldsAsArgumentsAction(explicitFields ...string) RewriteAction {
 
 		oldArgs := option.Args
 		oldAssignments := option.Assignments
-		assignmentPathPrefix := oldAssignments[0].Path
+
+		// the assignment consuming the first argument is looked up by argument name: arguments
+		// and assignments do not always go in pairs (constant assignments can sit in front)
+		argAssignmentIndex := 0
+		for i, assignment := range oldAssignments {
+			if assignment.Value.Argument != nil && assignment.Value.Argument.Name == oldArgs[0].Name {
+				argAssignmentIndex = i
+				break
+			}
+		}
+		assignmentPathPrefix := oldAssignments[argAssignmentIndex].Path
 		structType := firstArgType.AsStruct()
 
 		newOpt := option
@@ -354,7 +364,7 @@ func StructFieldsAsArgumentsAction(explicitFields ...string) RewriteAction {
 						assignmentPathPrefix.Append(ast.PathFromStructField(field)),
 						newArg,
 						ast.WithTypeConstraints(constraints),
-						ast.Method(oldAssignments[0].Method),
+						ast.Method(oldAssignments[argAssignmentIndex].Method),
 					)
 				}
 
@@ -400,7 +410,14 @@ func StructFieldsAsArgumentsAction(explicitFields ...string) RewriteAction {
 
 		if len(oldArgs) > 1 {
 			newOpt.Args = append(newOpt.Args, oldArgs[1:]...)
-			newOpt.Assignments = append(newOpt.Assignments, oldAssignments[1:]...)
+		}
+		if len(oldArgs) > 1 || argAssignmentIndex != 0 {
+			// the other assignments stay where they were
+			assignments := make([]ast.Assignment, 0, len(oldAssignments)+len(newOpt.Assignments))
+			assignments = append(assignments, oldAssignments[:argAssignmentIndex]...)
+			assignments = append(assignments, newOpt.Assignments...)
+			assignments = append(assignments, oldAssignments[argAssignmentIndex+1:]...)
+			newOpt.Assignments = assignments
 		}
 
 		return []ast.Option{newOpt}
